@@ -250,8 +250,8 @@ def execute(case):
                 hist["assigned_after_replace"].add(id(mid))
         if boomed:
             res.dontcare += 1       # a method raised: which other methods of the aborted dispatch still ran is not claimed
-            if len(tops) > 1:
-                break               # ... nor whether the other parent's share of the aborted dispatch was done: the history ends
+            break                   # ... nor how much of the aborted dispatch (re-binding of the other methods' watchers) was done:
+                                    # the statement does not cover dependent methods that raise, the history ends here
         for pi, top in enumerate(tops):
             if boomed:
                 break
